@@ -3,7 +3,7 @@ from common import COMMON_TB, GRAPH_TB, g_wiring, g_lifecycle, g_runners
 PROP = dict(
     module="IocProofs.C07",
     signatures=['c07-', 'c09-panic'],
-    subs=[dict(sub="graph", n_quick=1500, n_thorough=40000, project=g_wiring)],
+    subs=[dict(sub="graph", n_quick=1500, n_thorough=40000, project=g_wiring), dict(sub="naming", n_quick=3000, n_thorough=100000)],
     thorough_seeds=2,
     level_text='By-name selection, the absent/incompatible cases (error when required, untouched when optional, never a panic) and uniqueness of names are theorems about Ioc.Match / Ioc.Naming / the inject step of the machine; compared with real starts over present/absent/incompatible names x custom/default names x field kinds.',
     level_note="Modelled, not verified: reflect, sync.Map order (imposed), sort.Slice, third-party callbacks as flags/functions. The graph sub-harness is shared with other properties: only this property's oracles and its projection of the observation are compared here.",
